@@ -477,6 +477,8 @@ def main():
                 print("VIOLATION property=%s replay=%s" % (prop, args.replay))
             sys.exit(p.returncode)
         jobs = plan.jobs(prop, tier)
+        if os.environ.get("VERIF_ONLY"):      # debugging aid (never set by the registered commands): only the jobs of these configurations
+            jobs = [j for j in jobs if j["cfg"] in os.environ["VERIF_ONLY"].split(",")]
         if not jobs:
             raise Infra("no plan for %s" % prop)
         def fresh():
